@@ -31,7 +31,7 @@ ASSUMPTIONS = [
 ]
 BOUNDS = {"quick": {"variables": "<=5", "terms": "<=2 a, <=3 g"}, "thorough": {"variables": "<=6", "terms": "<=2 a, <=3 g"}}
 OPTS = {"quick": {"tier_budget_s": 230, "max_paths": 1500, "job_budget_s": 60, "witness_rate": 0.3}, "thorough": {"tier_budget_s": 2400, "max_paths": 20000, "job_budget_s": 400}}
-OPS = ["compose", "quotient", "merge", "merge-source", "compose-source", "elim-chain", "parse-pair", "refines", "rename", "rename-direct", "copy", "tl-simplify", "elim-refine", "elim-relax", "optimize", "bounds", "machine-dict", "string-dict", "parse", "contains", "is-empty", "tl-ops", "evaluate"]
+OPS = ["compose", "quotient", "merge", "merge-source", "compose-source", "elim-chain", "parse-pair", "tl-simplify-shared", "nested-le", "contract-simplify", "refines", "rename", "rename-direct", "copy", "tl-simplify", "elim-refine", "elim-relax", "optimize", "bounds", "machine-dict", "string-dict", "parse", "contains", "is-empty", "tl-ops", "evaluate"]
 REACH = {"quick": ["returned", "raised"] + ["op:" + o for o in OPS]}
 
 
@@ -70,77 +70,7 @@ def jobs(tier, seed):
     return out
 
 
-# ---- snapshots and identity walks ---------------------------------------------------------------
-def snap(obj):
-    """Structural description; numbers as z3 terms (symbolic) or Python values."""
-    E = O.E
-    if isinstance(obj, E.SymReal):
-        return ("num", obj.z)
-    if isinstance(obj, (int, float)) and not isinstance(obj, bool):
-        return ("num", E.q(obj))
-    if obj is None or isinstance(obj, (str, bool)):
-        return ("lit", obj)
-    if isinstance(obj, (list, tuple)):
-        return ("seq", type(obj).__name__, [snap(x) for x in obj])
-    if isinstance(obj, dict):
-        return ("map", [(snap(k), snap(v)) for k, v in obj.items()])
-    if hasattr(obj, "_name") and hasattr(obj, "name"):
-        return ("var", obj.name)
-    if hasattr(obj, "variables") and hasattr(obj, "constant"):
-        return ("term", [(v.name, snap(c)) for v, c in obj.variables.items()], snap(obj.constant))
-    if hasattr(obj, "terms"):
-        return ("tl", [snap(t) for t in obj.terms])
-    if hasattr(obj, "inputvars"):
-        return ("contract", [v.name for v in obj.inputvars], [v.name for v in obj.outputvars], snap(obj.a), snap(obj.g))
-    return ("other", repr(type(obj)))
-
-
-def same(ctx, s1, s2):
-    if s1[0] != s2[0]:
-        return False
-    if s1[0] == "num":
-        return z3.eq(s1[1], s2[1]) or ctx.provable(s1[1] == s2[1])
-    if s1[0] in ("lit", "var", "other"):
-        return s1[1] == s2[1]
-    if s1[0] == "seq":
-        return s1[1] == s2[1] and len(s1[2]) == len(s2[2]) and all(same(ctx, a, b) for a, b in zip(s1[2], s2[2]))
-    if s1[0] == "map":
-        return len(s1[1]) == len(s2[1]) and all(same(ctx, a[0], b[0]) and same(ctx, a[1], b[1]) for a, b in zip(s1[1], s2[1]))
-    if s1[0] == "term":
-        return len(s1[1]) == len(s2[1]) and all(a[0] == b[0] and same(ctx, a[1], b[1]) for a, b in zip(s1[1], s2[1])) and same(ctx, s1[2], s2[2])
-    if s1[0] == "tl":
-        return len(s1[1]) == len(s2[1]) and all(same(ctx, a, b) for a, b in zip(s1[1], s2[1]))
-    if s1[0] == "contract":
-        return s1[1] == s2[1] and s1[2] == s2[2] and same(ctx, s1[3], s2[3]) and same(ctx, s1[4], s2[4])
-    return False
-
-
-def mutable_ids(obj, acc=None):
-    """ids of mutable objects reachable from obj (lists, dicts, terms, term lists, contracts)."""
-    acc = {} if acc is None else acc
-    if isinstance(obj, (list, dict)):
-        if id(obj) in acc:
-            return acc
-        acc[id(obj)] = type(obj).__name__
-        for x in obj.values() if isinstance(obj, dict) else obj:
-            mutable_ids(x, acc)
-    elif isinstance(obj, tuple):
-        for x in obj:
-            mutable_ids(x, acc)
-    elif hasattr(obj, "variables") and hasattr(obj, "constant"):
-        if id(obj) not in acc:
-            acc[id(obj)] = "term"
-            mutable_ids(obj.variables, acc)
-    elif hasattr(obj, "terms"):
-        if id(obj) not in acc:
-            acc[id(obj)] = "termlist"
-            mutable_ids(obj.terms, acc)
-    elif hasattr(obj, "inputvars"):
-        if id(obj) not in acc:
-            acc[id(obj)] = "contract"
-            for x in (obj.inputvars, obj.outputvars, obj.a, obj.g):
-                mutable_ids(x, acc)
-    return acc
+from ..purity import mutable_ids, same, snap  # noqa: E402,F401
 
 
 def _captured(fn):
@@ -170,10 +100,26 @@ def _module_containers(mod):
     for name, v in sorted(vars(mod).items()):
         if name.startswith("__"):
             continue
-        if isinstance(v, (list, set)) and not name.isupper():
-            out.append((mod.__name__, name, len(v)))
-        elif isinstance(v, dict) and not name.isupper():
-            out.append((mod.__name__, name, len(v)))
+        if isinstance(v, (list, set, dict)):
+            out.append((mod.__name__, name, len(v), repr(v) if len(repr(v)) < 200 else None))
+    return out
+
+
+def _pacti_modules():
+    import sys
+
+    return [m for n, m in sorted(sys.modules.items()) if (n == "pacti" or n.startswith("pacti.")) and m is not None]
+
+
+def _class_containers():
+    """Mutable class attributes of pacti classes (memo tables hung on a class show up here)."""
+    out = []
+    for m in _pacti_modules():
+        for cname, cls in sorted(vars(m).items()):
+            if isinstance(cls, type) and getattr(cls, "__module__", "").startswith("pacti"):
+                for an, av in sorted(vars(cls).items()):
+                    if isinstance(av, (list, set, dict)) and not an.startswith("__"):
+                        out.append((cname, an, len(av)))
     return out
 
 
@@ -190,7 +136,8 @@ def module_state():
         "TACTICS": sorted(P.PolyhedralTermList.TACTICS),
         "TACTICS-ids": [id(P.PolyhedralTermList.TACTICS[k]) for k in sorted(P.PolyhedralTermList.TACTICS)],
         "TACTICS-captured": [_captured(P.PolyhedralTermList.TACTICS[k]) for k in sorted(P.PolyhedralTermList.TACTICS)],
-        "module-level-containers": _module_containers(P) + _module_containers(S) + _module_containers(PC) + _module_containers(G),
+        "module-level-containers": [x for m in _pacti_modules() for x in _module_containers(m)],
+        "class-level-containers": _class_containers(),
         "grammar": [id(G.expression), id(G.terms), id(G.term), id(G.abs_term), id(G.floating_point_number)],
         "grammar-actions": [len(getattr(G.expression, "parseAction", [])), len(getattr(G.terms, "parseAction", []))],
         "tolerances": (S.float_closeness_relative_tolerance, S.float_closeness_absolute_tolerance),
@@ -245,6 +192,22 @@ def run(ctx, job):
             return c1.copy()
         if op == "tl-simplify":
             return c1.g.simplify(c1.a)
+        if op == "tl-simplify-shared":
+            # the list shares terms with its context
+            return shared_tl.simplify(c1.a)
+        if op == "nested-le":
+            from pacti.contracts.polyhedral_iocontract import NestedPolyhedra
+
+            n1 = NestedPolyhedra([c1.g, c1.a | c1.g], False)
+            n2 = NestedPolyhedra([c1.g | c2.g, c1.g], False)
+            return [bool(n1 <= n2), bool(n2 <= n1)]
+        if op == "contract-simplify":
+            # IoContract.simplify() is the documented in-place mutator: hash and equality must follow the new state
+            k = PolyhedralIoContract(c1.a, P.PolyhedralTermList(c1.g.terms + [t.copy() for t in c1.a.terms]), c1.inputvars, c1.outputvars, simplify=False)
+            h0 = hash(k)
+            k.simplify()
+            twin = k.copy()
+            return [bool(k == twin), hash(k) == hash(twin), h0 is not None]
         if op == "elim-refine":
             return c1.g.elim_vars_by_refining(c1.a, elim, simplify=job["simplify"], tactics_order=tactics)[0]
         if op == "elim-relax":
@@ -271,6 +234,10 @@ def run(ctx, job):
         raise ValueError(op)
 
     parse_text = "2 x + |y - 3| <= 4 z"
+    shared_tl = None
+    if op == "tl-simplify-shared":
+        shared_tl = P.PolyhedralTermList([t.copy() for t in c1.a.terms] + [t.copy() for t in c1.g.terms])
+        operands["shared_tl"] = shared_tl
     chain_tl = chain_cx = None
     if op == "elim-chain":
         chain_tl = B.mk_tl(ctx, job["chain"]["terms"], "ct")
@@ -290,6 +257,8 @@ def run(ctx, job):
     except Exception as e:
         raised = B.classify(e)
     ctx.tag("raised" if raised else "returned")
+    if op == "contract-simplify" and raised is None:
+        ctx.expect("equal-contracts-hash-equal-after-in-place-simplify", (not res[0]) or res[1], info="c.simplify(); c == c.copy() but hashes differ")
     if op == "parse-pair" and raised is None:
         # history independence of the parser: the same second string parsed in the reverse order of calls
         try:
